@@ -127,6 +127,15 @@ func c04Oracle(w *World, s *Setup) *Violation {
 		}
 		parentViews := w.Cache.Versions(r.Inc, parentRef.Res, parentRef.NS, parentRef.Name, sy.StartStep-1, r.ParkStep)
 		childViews := w.Cache.Versions(r.Inc, r.Res, r.NS, r.Name, sy.StartStep-1, r.ParkStep)
+		// ... or a version an earlier answer of this sync carried (the finalizer update -
+		// or, when there is nothing to update, its fresh read - returns the live parent,
+		// and the sync goes on with that object)
+		for _, q := range sy.Reqs {
+			if q.Arrival < r.Arrival && q.Res == parentRef.Res && q.NS == parentRef.NS && q.Name == parentRef.Name && q.Sub == "" &&
+				(q.Verb == "update" || q.Verb == "get") && q.Code == 200 && q.Fault == "" && q.Post != nil {
+				parentViews = append(parentViews, q.Post)
+			}
+		}
 		matchSome, unmatchSome, aliveChild := false, false, false
 		parentAliveView := false
 		for _, pv := range parentViews {
@@ -340,6 +349,7 @@ func C04Scenario() *Scenario {
 			ops = append(ops, s.OrphanOps(b)...)
 			ops = append(ops, s.OrphanOps(b)...)
 			ops = append(ops, s.ParentLifecycle(b)...)
+			ops = append(ops, s.Reselect(b)...)
 			ops = append(ops, s.ParentReplace(b)...)
 			ops = append(ops, GCOps(w)...)
 			return ops
